@@ -148,7 +148,7 @@ func (c *Cache) RemoveOldest() (key, value interface{}, ok bool) {
 func (c *Cache) Purge() {
 	for k, v := range c.items {
 		if c.onEvicted != nil {
-			c.onEvicted(k, v)
+			c.onEvicted(k, v.Value.(*Entry).Value)
 		}
 		delete(c.items, k)
 	}
